@@ -622,7 +622,7 @@ Section Invariant.
     sched_inv H es0 prog {| g_sh := s'; g_threads := set_nth g t' (g_threads c) |} (l ++ lg).
   Proof.
     intros Hinv Hn Hcalls Hlock Hlog Htrace HE Hcont Hthr' Hfile' Htorn'.
-    destruct Hinv as [Ilock Ilen Ifile Itorn Ithr Inodup Ilogok Iprog].
+    destruct Hinv as [Ilock Ilen Ifile Itorn Ithr Inodup Ilogok Igids Iprog].
     assert (Hk : ok_call H k).
     { destruct (Ithr _ _ Hn) as [Hok _]. rewrite Hcalls in Hok. now inversion Hok. }
     constructor; cbn [g_sh g_threads].
@@ -655,6 +655,9 @@ Section Invariant.
         eapply concat_map_set_nth_perm; eassumption.
     - destruct Hlog as [[-> _]|[-> _]]; [now rewrite app_nil_r|].
       rewrite map_app. apply Forall_app. split; [exact Ilogok|]. cbn. constructor; [exact Hk|constructor].
+    - intros x Hx. rewrite length_set_nth. apply in_app_or in Hx as [Hx|Hx]; [now apply Igids|].
+      destruct Hlog as [[-> _]|[-> _]]; [destruct Hx|]. destruct Hx as [<-|[]]. cbn [fst].
+      apply nth_error_Some. congruence.
     - intros g2 t2 Hy.
       destruct (nth_error_set_nth_cases _ _ _ _ _ _ Hn Hy) as [[-> ->]|[Hne Hy']].
       + destruct (Iprog _ _ Hn) as [pg [Hpg [Htr Hpr]]]. exists pg.
@@ -858,4 +861,444 @@ Section Invariant.
       + exact Hrest.
       + destruct rest; auto.
   Qed.
+
+  Lemma sched_inv_run sch c l c' :
+    sched_inv H es0 prog c l -> run_sched Repaired c sch = Some c' ->
+    sched_inv H es0 prog c' (l ++ lin_order Repaired c sch).
+  Proof.
+    revert c l. induction sch as [|g sch IH]; intros c l Hinv Hr; cbn [run_sched lin_order] in *.
+    - injection Hr as <-. now rewrite app_nil_r.
+    - destruct (sched_step Repaired c g) as [c1|] eqn:Hs; [|discriminate].
+      rewrite app_assoc. apply IH; [|exact Hr]. now apply sched_inv_step.
+  Qed.
+
+  Lemma sched_inv_init f0 :
+    content f0 = render es0 ->
+    NoDup (map cl_tid (concat prog)) -> Forall (ok_call H) (concat prog) ->
+    sched_inv H es0 prog (init_cfg f0 prog) [].
+  Proof.
+    intros Hf Hnd Hok.
+    assert (Hth : forall g t, nth_error (g_threads (init_cfg f0 prog)) g = Some t ->
+                              exists pg, nth_error prog g = Some pg /\ t = init_thread pg).
+    { intros g t Hn. cbn [init_cfg g_threads] in Hn. rewrite nth_error_map in Hn.
+      destruct (nth_error prog g) as [pg|]; [|discriminate]. injection Hn as <-. now exists pg. }
+    constructor.
+    - apply quiescent_lock_inv, init_quiescent.
+    - cbn. apply map_length.
+    - intros _. exact Hf.
+    - intros g t Hn Hpc. destruct (Hth _ _ Hn) as [pg [_ ->]]. discriminate.
+    - intros g t Hn. destruct (Hth _ _ Hn) as [pg [Hpg ->]]. split; cbn [init_thread t_calls t_pc].
+      + rewrite Forall_forall in *. intros k Hk. apply Hok. apply in_concat.
+        exists pg. split; [eapply nth_error_In; exact Hpg|exact Hk].
+      + destruct pg; auto.
+    - cbn [map app init_cfg g_threads]. rewrite map_map.
+      replace (map (fun x => unlogged (init_thread x)) prog) with prog; [exact Hnd|].
+      clear. induction prog as [|pg pr IH]; [reflexivity|]. cbn [map]. now rewrite <- IH.
+    - constructor.
+    - intros x [].
+    - intros g t Hn. destruct (Hth _ _ Hn) as [pg [Hpg ->]]. exists pg. repeat split; auto.
+  Qed.
 End Invariant.
+
+(* ================================================================== *)
+(* 7. serial executions                                                *)
+(* ================================================================== *)
+
+(* a call run alone with the small-step semantics is the atomic call, in both protocols *)
+Lemma run_alone_atomic p f c : run_alone p f c = call_atomic f c.
+Proof.
+  unfold run_alone, call_atomic, call_fuel.
+  cbn [run_thread sched_step init_cfg g_threads g_sh map nth_error init_thread next_ev t_calls
+       t_pc t_read ev_at enabled init_sh wlock rlocks apply_ev advance set_pc set_pc_read
+       set_nth file content].
+  destruct (decide c (content f)) as [| |o]; destruct p;
+    cbn [run_thread sched_step init_cfg g_threads g_sh map nth_error init_thread next_ev t_calls
+         t_pc t_read ev_at enabled init_sh wlock rlocks apply_ev advance set_pc set_pc_read
+         set_nth file content finish_call tl set_file Nat.eqb pred final_file outcomes t_out
+         concat app hd];
+    unfold add_entry; rewrite ?skipn_nil, ?app_nil_r; reflexivity.
+Qed.
+
+Section Serial.
+  Variable H : list bytes.
+  Variable es0 : list entry.
+  Hypothesis Hwf0 : Forall wf_entry es0.
+  Hypothesis Hnc0 : no_collisions H es0.
+
+  (* the atomic call on a rendered file, at the entries level *)
+  Lemma call_atomic_render f es c :
+    content f = render es -> Forall wf_entry es -> no_collisions H es -> ok_call H c ->
+    lookup_entry (cl_tid c) es = lookup_entry (cl_tid c) es0 ->
+    content (fst (call_atomic f c)) = render (apply_call es0 es c) /\
+    snd (call_atomic f c) = spec_outcome es0 c.
+  Proof.
+    intros Hf Hes Hnc Hk Hl. unfold call_atomic, apply_call.
+    rewrite Hf, (decide_render H es0 es c Hes Hnc Hk Hl).
+    destruct Hk as [Hin [[_ [Hne [Hnend _]]] _]]. cbn [fst] in Hne, Hnend.
+    destruct (spec_outcome es0 c); cbn [decision_of fst snd content]; split; auto.
+    - unfold add_entry. now rewrite render_snoc.
+    - apply update_entry_render; auto.
+  Qed.
+
+  (* outcome of a call run alone against the initial file *)
+  Lemma spec_outcome_alone p f0 c :
+    content f0 = render es0 -> ok_call H c ->
+    snd (run_alone p f0 c) = spec_outcome es0 c.
+  Proof.
+    intros Hf Hk. rewrite run_alone_atomic.
+    now apply (call_atomic_render f0 es0 c Hf Hwf0 Hnc0 Hk eq_refl).
+  Qed.
+
+  (* a serial run of calls with pairwise distinct headers, started on the rendering of the
+     entries after [l1] *)
+  Lemma run_serial_spec p l2 : forall l1 f,
+    content f = render (es_of es0 l1) ->
+    Forall (ok_call H) l1 -> Forall (ok_call H) (map snd l2) ->
+    NoDup (map cl_tid (l1 ++ map snd l2)) ->
+    content (fst (run_serial p f l2)) = render (es_of es0 (l1 ++ map snd l2)) /\
+    snd (run_serial p f l2) = map (fun x => (fst x, spec_outcome es0 (snd x))) l2.
+  Proof.
+    induction l2 as [|[g c] l2 IH]; intros l1 f Hf Hok1 Hok2 Hnd; cbn [run_serial map snd fst].
+    - rewrite app_nil_r. split; [exact Hf|reflexivity].
+    - cbn [map snd] in Hok2, Hnd. inversion Hok2 as [|? ? Hc Hok2']; subst.
+      assert (Hfresh : ~ In (cl_tid c) (map cl_tid l1)).
+      { rewrite map_app in Hnd. eapply NoDup_app_notin; [exact Hnd|]. now left. }
+      destruct (call_atomic_render f (es_of es0 l1) c Hf (es_of_wf H es0 Hwf0 l1 Hok1)
+                  (es_of_nc H es0 Hnc0 l1 Hok1) Hc (es_lookup_fresh es0 l1 _ Hfresh)) as [Hc1 Hc2].
+      rewrite run_alone_atomic.
+      destruct (call_atomic f c) as [f1 o] eqn:Hca. cbn [fst snd] in Hc1, Hc2.
+      rewrite <- es_of_snoc in Hc1.
+      assert (Hok1' : Forall (ok_call H) (l1 ++ [c])).
+      { apply Forall_app. split; [exact Hok1|]. constructor; [exact Hc|constructor]. }
+      assert (Hnd' : NoDup (map cl_tid ((l1 ++ [c]) ++ map snd l2))).
+      { rewrite <- app_assoc. exact Hnd. }
+      destruct (IH (l1 ++ [c]) f1 Hc1 Hok1' Hok2' Hnd') as [IH1 IH2].
+      destruct (run_serial p f1 l2) as [f2 os]. cbn [fst snd] in *.
+      rewrite <- app_assoc in IH1. cbn [app] in IH1. split; [exact IH1|]. now rewrite IH2, Hc2.
+  Qed.
+End Serial.
+
+(* ---------- grouping outcomes per goroutine ---------- *)
+
+Lemma proj_map_outcomes {A} (f : call -> A) g (l : list (nat * call)) :
+  map snd (filter (fun x => Nat.eqb (fst x) g) (map (fun x => (fst x, f (snd x))) l)) =
+  map f (proj g l).
+Proof.
+  unfold proj. induction l as [|[g' c] l IH]; [reflexivity|]. cbn [map filter fst snd].
+  destruct (Nat.eqb g' g); cbn [map snd]; now rewrite IH.
+Qed.
+
+Lemma map_seq_nth_error {A B} (F : nat -> B) (h : A -> B) (l : list A) s :
+  (forall g a, nth_error l g = Some a -> F (s + g) = h a) ->
+  map F (seq s (length l)) = map h l.
+Proof.
+  revert s. induction l as [|a l IH]; intros s Hf; [reflexivity|]. cbn [length seq map]. f_equal.
+  - rewrite <- (Nat.add_0_r s). now apply (Hf 0).
+  - apply IH. intros g b Hn. rewrite Nat.add_succ_l, <- Nat.add_succ_r. now apply (Hf (S g)).
+Qed.
+
+Lemma map_eq_by_nth {A B C} (f : A -> C) (h : B -> C) l1 l2 :
+  length l1 = length l2 ->
+  (forall g a, nth_error l1 g = Some a -> exists b, nth_error l2 g = Some b /\ f a = h b) ->
+  map f l1 = map h l2.
+Proof.
+  revert l2. induction l1 as [|a l1 IH]; intros [|b l2] Hlen Hn; try discriminate; [reflexivity|].
+  cbn [map]. f_equal.
+  - destruct (Hn 0 a eq_refl) as [b' [Hb Hab]]. cbn in Hb. now injection Hb as <-.
+  - apply IH; [now injection Hlen|]. intros g a' Ha. now apply (Hn (S g)).
+Qed.
+
+Lemma in_proj g c (l : list (nat * call)) : In (g, c) l -> In c (proj g l).
+Proof.
+  intros Hin. unfold proj. apply in_map_iff. exists (g, c). split; [reflexivity|].
+  apply filter_In. split; [exact Hin|]. cbn. apply Nat.eqb_refl.
+Qed.
+
+Lemma proj_in g c (l : list (nat * call)) : In c (proj g l) -> In c (map snd l).
+Proof.
+  unfold proj. intros Hin. apply in_map_iff in Hin as [x [<- Hx]].
+  apply filter_In in Hx as [Hx _]. now apply in_map.
+Qed.
+
+Lemma NoDup_app_l {A} (a b : list A) : NoDup (a ++ b) -> NoDup a.
+Proof.
+  induction a as [|x a IH]; cbn; intros Hnd; [constructor|].
+  inversion Hnd as [|? ? Hx Hnd']; subst. constructor; [|now apply IH].
+  intros Hin. apply Hx. apply in_or_app. now left.
+Qed.
+
+Lemma NoDup_map_filter {A B} (f : A -> B) (p : A -> bool) l :
+  NoDup (map f l) -> NoDup (map f (filter p l)).
+Proof.
+  induction l as [|x l IH]; cbn [map filter]; intros Hnd; [constructor|].
+  inversion Hnd as [|? ? Hx Hnd']; subst. destruct (p x); [|now apply IH].
+  cbn [map]. constructor; [|now apply IH]. intros Hin. apply Hx.
+  apply in_map_iff in Hin as [y [Hy Hin]]. apply filter_In in Hin as [Hin _].
+  rewrite <- Hy. now apply in_map.
+Qed.
+
+Lemma NoDup_map_inj_in {A B} (f : A -> B) l x y :
+  NoDup (map f l) -> In x l -> In y l -> f x = f y -> x = y.
+Proof.
+  induction l as [|a l IH]; cbn [map]; intros Hnd Hx Hy Hf; [destruct Hx|].
+  inversion Hnd as [|? ? Ha Hnd']; subst.
+  destruct Hx as [->|Hx], Hy as [->|Hy]; auto.
+  - exfalso. apply Ha. rewrite Hf. now apply in_map.
+  - exfalso. apply Ha. rewrite <- Hf. now apply in_map.
+Qed.
+
+(* ================================================================== *)
+(* 8. TARGET 3: every complete schedule of the Repaired protocol is    *)
+(*    serialisable                                                     *)
+(* ================================================================== *)
+
+Lemma finished_threads c g t :
+  finished c = true -> nth_error (g_threads c) g = Some t -> t_calls t = [].
+Proof.
+  unfold finished. intros Hf Hn. rewrite forallb_forall in Hf.
+  specialize (Hf t (nth_error_In _ _ Hn)). unfold thread_done in Hf.
+  destruct (t_calls t); [reflexivity|discriminate].
+Qed.
+
+Section Final.
+  Variable H : list bytes.
+  Variable es0 : list entry.
+  Variable prog : list (list call).
+  Variable c : cfg.
+  Variable l : list (nat * call).
+  Hypothesis Hinv : sched_inv H es0 prog c l.
+
+  Lemma inv_log_in_prog k : In k (map snd l) -> In k (concat prog).
+  Proof.
+    intros Hin. apply in_map_iff in Hin as [[g k'] [Hk Hin]]. cbn in Hk. subst k'.
+    pose proof (si_gids _ _ _ _ _ Hinv _ Hin) as Hg. cbn [fst] in Hg.
+    destruct (nth_error (g_threads c) g) as [t|] eqn:Hn; [|apply nth_error_None in Hn; lia].
+    destruct (si_prog _ _ _ _ _ Hinv g t Hn) as [pg [Hpg [_ Hpr]]].
+    apply in_concat. exists pg. split; [eapply nth_error_In; exact Hpg|].
+    rewrite <- Hpr. apply in_or_app. left. now apply in_proj.
+  Qed.
+
+  Lemma inv_log_nodup : NoDup (map cl_tid (map snd l)).
+  Proof.
+    pose proof (si_nodup _ _ _ _ _ Hinv) as Hnd. rewrite map_app in Hnd.
+    now apply NoDup_app_l in Hnd.
+  Qed.
+
+  Hypothesis Hfin : finished c = true.
+
+  Lemma final_thread g t :
+    nth_error (g_threads c) g = Some t -> t_calls t = [] /\ t_pc t = PIdle /\ unlogged t = [].
+  Proof.
+    intros Hn. pose proof (finished_threads c g t Hfin Hn) as Hc.
+    destruct (si_thr _ _ _ _ _ Hinv g t Hn) as [_ Hpc]. rewrite Hc in Hpc.
+    repeat split; auto. unfold unlogged. now rewrite Hpc.
+  Qed.
+
+  (* the log is an interleaving of the goroutines' programs; every goroutine recorded the
+     outcomes its calls get when run alone *)
+  Lemma final_prog g pg :
+    nth_error prog g = Some pg ->
+    proj g l = pg /\
+    exists t, nth_error (g_threads c) g = Some t /\ t_out t = map (spec_outcome es0) pg.
+  Proof.
+    intros Hpg.
+    destruct (nth_error (g_threads c) g) as [t|] eqn:Hn.
+    - destruct (final_thread g t Hn) as [Hc [_ Hu]].
+      destruct (si_prog _ _ _ _ _ Hinv g t Hn) as [pg' [Hpg' [Htr Hpr]]].
+      rewrite Hpg in Hpg'. injection Hpg' as <-.
+      rewrite Hu, app_nil_r in Hpr. split; [exact Hpr|]. exists t. split; [reflexivity|].
+      unfold trace in Htr. rewrite Hc in Htr. cbn in Htr. now rewrite app_nil_r in Htr.
+    - apply nth_error_None in Hn. rewrite (si_len _ _ _ _ _ Hinv) in Hn.
+      assert (g < length prog) by (apply nth_error_Some; congruence). lia.
+  Qed.
+
+  Lemma final_outcomes : outcomes c = map (map (spec_outcome es0)) prog.
+  Proof.
+    unfold outcomes. apply map_eq_by_nth; [apply (si_len _ _ _ _ _ Hinv)|].
+    intros g t Hn. destruct (si_prog _ _ _ _ _ Hinv g t Hn) as [pg [Hpg _]].
+    exists pg. split; [exact Hpg|].
+    destruct (final_prog g pg Hpg) as [_ [t' [Hn' Ho]]]. rewrite Hn in Hn'. now injection Hn' as <-.
+  Qed.
+
+  Lemma final_file_render : content (final_file c) = render (es_of es0 (map snd l)).
+  Proof.
+    apply (si_file _ _ _ _ _ Hinv). intros g t Hn Hpc.
+    destruct (final_thread g t Hn) as [_ [Hi _]]. congruence.
+  Qed.
+
+  Lemma final_prog_in_log k : In k (concat prog) -> In k (map snd l).
+  Proof.
+    intros Hin. apply in_concat in Hin as [pg [Hpg Hk]].
+    apply In_nth_error in Hpg as [g Hg].
+    destruct (final_prog g pg Hg) as [Hpr _]. rewrite <- Hpr in Hk. now apply proj_in in Hk.
+  Qed.
+End Final.
+
+(* THE MAIN THEOREM.  Repaired protocol, entries level.
+   Initial file: the rendering of well-formed entries [es0] (a missing file counts as
+   empty).  Goroutines [prog] (one list of calls each) with pairwise distinct headers over
+   all calls of all goroutines; every stored text well formed; no body line of es0 and no
+   line of any new text equals a header in play.  Then for EVERY schedule that runs all
+   goroutines to completion: *)
+Theorem serialisable (es0 : list entry) (f0 : option bytes) (prog : list (list call))
+        (sch : list nat) (c : cfg) :
+  content f0 = render es0 ->
+  Forall wf_entry es0 ->
+  no_collisions (map cl_tid (concat prog)) es0 ->
+  NoDup (map cl_tid (concat prog)) ->
+  Forall (ok_call (map cl_tid (concat prog))) (concat prog) ->
+  run_sched Repaired (init_cfg f0 prog) sch = Some c ->
+  finished c = true ->
+  let L := lin_order Repaired (init_cfg f0 prog) sch in
+  let es' := es_of es0 (map snd L) in
+  (* (a) every call gets the outcome it gets when run ALONE against the initial file *)
+  outcomes c = map (map (fun k => snd (run_alone Repaired f0 k))) prog /\
+  outcomes c = map (map (spec_outcome es0)) prog /\
+  (* (b) the final file is a rendering of well-formed entries ... *)
+  content (final_file c) = render es' /\
+  Forall wf_entry es' /\
+  (* ... in which every adding / updating call's slot holds its text, *)
+  (forall k, In k (concat prog) ->
+             spec_outcome es0 k = OAdded \/ spec_outcome es0 k = OUpdated ->
+             lookup_entry (cl_tid k) es' = Some (cl_snap k)) /\
+  (* every header not addressed by an adding / updating call is as it was, *)
+  (forall h, (forall k, In k (concat prog) -> is_writer es0 k = true -> cl_tid k <> h) ->
+             lookup_entry h es' = lookup_entry h es0) /\
+  (* and the ids are those of es0 followed by the headers of the added calls, each once *)
+  (exists added, map fst es' = map fst es0 ++ added /\
+                 Permutation added (map cl_tid (filter (is_added es0) (concat prog)))) /\
+  (* (c) L is a serial order (an interleaving of the goroutines' programs) whose serial
+     run gives the same file content and the same outcomes *)
+  (forall g pg, nth_error prog g = Some pg -> proj g L = pg) /\
+  content (fst (run_serial Repaired f0 L)) = content (final_file c) /\
+  group_outcomes (length prog) (snd (run_serial Repaired f0 L)) = outcomes c.
+Proof.
+  intros Hf0 Hwf0 Hnc0 Hnd Hok Hrun Hfin L es'.
+  set (H := map cl_tid (concat prog)) in *.
+  assert (Hinv : sched_inv H es0 prog c L).
+  { change L with ([] ++ L). eapply sched_inv_run; [exact Hwf0|exact Hnc0| |exact Hrun].
+    now apply sched_inv_init. }
+  pose proof (final_outcomes H es0 prog c L Hinv Hfin) as Hout.
+  pose proof (inv_log_nodup H es0 prog c L Hinv) as HndL.
+  pose proof (si_logok _ _ _ _ _ Hinv) as HokL.
+  split; [|split; [exact Hout|]].
+  { rewrite Hout. apply map_ext_in. intros pg Hpg. apply map_ext_in. intros k Hk.
+    symmetry. apply (spec_outcome_alone H es0 Hwf0 Hnc0 Repaired f0 k Hf0).
+    rewrite Forall_forall in Hok. apply Hok. apply in_concat. now exists pg. }
+  split; [now apply (final_file_render H es0 prog c L)|].
+  split; [now apply (es_of_wf H)|].
+  split.
+  { intros k Hk Hw. apply es_lookup_written; [exact HndL| |].
+    - now apply (final_prog_in_log H es0 prog c L).
+    - unfold is_writer, is_added, is_updated. destruct Hw as [-> | ->]; reflexivity. }
+  split.
+  { intros h Hh. apply es_lookup_untouched. intros k Hk. apply Hh.
+    now apply (inv_log_in_prog H es0 prog c L). }
+  split.
+  { exists (map cl_tid (filter (is_added es0) (map snd L))). split; [apply es_of_ids|].
+    apply NoDup_Permutation.
+    - now apply NoDup_map_filter.
+    - now apply NoDup_map_filter.
+    - intros h. rewrite !in_map_iff. split; intros [k [Hk Hin]]; exists k; (split; [exact Hk|]);
+        apply filter_In in Hin as [Hin Hp]; apply filter_In; (split; [|exact Hp]).
+      + now apply (inv_log_in_prog H es0 prog c L).
+      + now apply (final_prog_in_log H es0 prog c L). }
+  split.
+  { intros g pg Hpg. now destruct (final_prog H es0 prog c L Hinv Hfin g pg Hpg). }
+  assert (HndL' : NoDup (map cl_tid ([] ++ map snd L))) by exact HndL.
+  destruct (run_serial_spec H es0 Hwf0 Hnc0 Repaired L [] f0 Hf0 (Forall_nil _) HokL HndL')
+    as [Hs1 Hs2].
+  split.
+  { rewrite Hs1. symmetry. now apply (final_file_render H es0 prog c L). }
+  rewrite Hs2, Hout. unfold group_outcomes.
+  rewrite (map_ext _ (fun g => map (spec_outcome es0) (proj g L)))
+    by (intros g; apply proj_map_outcomes).
+  apply (map_seq_nth_error (fun g => map (spec_outcome es0) (proj g L)) (map (spec_outcome es0)) prog 0).
+  intros g pg Hpg. cbn [plus].
+  now destruct (final_prog H es0 prog c L Hinv Hfin g pg Hpg) as [-> _].
+Qed.
+
+(* ================================================================== *)
+(* 9. any serial order                                                 *)
+(* ================================================================== *)
+
+Lemma existsb_false_forall {A} (f : A -> bool) l :
+  existsb f l = false -> forall x, In x l -> f x = false.
+Proof.
+  intros He x Hin. destruct (f x) eqn:E; [|reflexivity].
+  assert (existsb f l = true) by (apply existsb_exists; now exists x). congruence.
+Qed.
+
+(* two serial orders of the same calls give the same slot contents (the order of the
+   appended entries in the file may differ, nothing else) *)
+Lemma es_of_lookup_perm es0 l1 l2 h :
+  NoDup (map cl_tid l1) -> Permutation l1 l2 ->
+  lookup_entry h (es_of es0 l1) = lookup_entry h (es_of es0 l2).
+Proof.
+  intros Hnd Hp.
+  assert (Hnd2 : NoDup (map cl_tid l2)).
+  { eapply Permutation_NoDup; [|exact Hnd]. now apply Permutation_map. }
+  destruct (existsb (fun k => is_writer es0 k && beq (cl_tid k) h) l1) eqn:E.
+  - apply existsb_exists in E as [k [Hin Hk]]. apply andb_prop in Hk as [Hw Hh].
+    apply beq_eq in Hh. subst h.
+    rewrite (es_lookup_written es0 l1 k Hnd Hin Hw).
+    symmetry. apply es_lookup_written; [exact Hnd2| |exact Hw].
+    eapply Permutation_in; eassumption.
+  - pose proof (existsb_false_forall _ _ E) as Hall. cbn beta in Hall.
+    rewrite !es_lookup_untouched; [reflexivity| |].
+    + intros k Hin Hw Hh. apply Permutation_sym in Hp.
+      specialize (Hall k (Permutation_in _ Hp Hin)). rewrite Hw in Hall. cbn in Hall.
+      apply beq_neq in Hall. contradiction.
+    + intros k Hin Hw Hh. specialize (Hall k Hin). rewrite Hw in Hall. cbn in Hall.
+      apply beq_neq in Hall. contradiction.
+Qed.
+
+(* Every serial order of calls with pairwise distinct headers gives every call the outcome
+   it has alone against the initial file, and a file that is the rendering of [es_of]. *)
+Theorem serial_any_order (es0 : list entry) (f0 : option bytes) (p : protocol)
+        (l : list (nat * call)) :
+  let H := map cl_tid (map snd l) in
+  content f0 = render es0 -> Forall wf_entry es0 -> no_collisions H es0 ->
+  NoDup H -> Forall (ok_call H) (map snd l) ->
+  snd (run_serial p f0 l) = map (fun x => (fst x, snd (run_alone p f0 (snd x)))) l /\
+  content (fst (run_serial p f0 l)) = render (es_of es0 (map snd l)).
+Proof.
+  intros H Hf0 Hwf0 Hnc0 Hnd Hok.
+  destruct (run_serial_spec H es0 Hwf0 Hnc0 p l [] f0 Hf0 (Forall_nil _) Hok Hnd) as [H1 H2].
+  split; [|exact H1]. rewrite H2. apply map_ext_in. intros [g k] Hin. cbn [fst snd].
+  f_equal. symmetry. apply (spec_outcome_alone H es0 Hwf0 Hnc0 p f0 k Hf0).
+  rewrite Forall_forall in Hok. apply Hok. apply in_map_iff. now exists (g, k).
+Qed.
+
+(* hence: two serial orders of the same calls agree on every outcome and every slot *)
+Corollary serial_orders_agree (es0 : list entry) (f0 : option bytes) (p : protocol)
+          (l1 l2 : list (nat * call)) (h : bytes) :
+  let H := map cl_tid (map snd l1) in
+  content f0 = render es0 -> Forall wf_entry es0 -> no_collisions H es0 ->
+  NoDup H -> Forall (ok_call H) (map snd l1) -> Permutation l1 l2 ->
+  Permutation (snd (run_serial p f0 l1)) (snd (run_serial p f0 l2)) /\
+  exists e1 e2,
+    content (fst (run_serial p f0 l1)) = render e1 /\
+    content (fst (run_serial p f0 l2)) = render e2 /\
+    lookup_entry h e1 = lookup_entry h e2.
+Proof.
+  intros H Hf0 Hwf0 Hnc0 Hnd Hok Hp.
+  assert (Hp' : Permutation (map snd l1) (map snd l2)) by now apply Permutation_map.
+  assert (Hincl : forall x, In x (map cl_tid (map snd l2)) -> In x H).
+  { intros x Hx. eapply Permutation_in; [|exact Hx].
+    apply Permutation_map. now apply Permutation_sym. }
+  assert (Hnd2 : NoDup (map cl_tid (map snd l2))).
+  { eapply Permutation_NoDup; [|exact Hnd]. now apply Permutation_map. }
+  assert (Hnc2 : no_collisions (map cl_tid (map snd l2)) es0).
+  { intros x Hx. apply Hnc0. now apply Hincl. }
+  assert (Hok2 : Forall (ok_call (map cl_tid (map snd l2))) (map snd l2)).
+  { apply Forall_forall. intros k Hk. rewrite Forall_forall in Hok.
+    destruct (Hok k (Permutation_in _ (Permutation_sym Hp') Hk)) as [Hi [Hw Hs]].
+    split; [now apply in_map|]. split; [exact Hw|]. intros x Hx. apply Hs. now apply Hincl. }
+  destruct (serial_any_order es0 f0 p l1 Hf0 Hwf0 Hnc0 Hnd Hok) as [Ho1 Hc1].
+  destruct (serial_any_order es0 f0 p l2 Hf0 Hwf0 Hnc2 Hnd2 Hok2) as [Ho2 Hc2].
+  split.
+  - rewrite Ho1, Ho2. now apply Permutation_map.
+  - exists (es_of es0 (map snd l1)), (es_of es0 (map snd l2)).
+    split; [exact Hc1|]. split; [exact Hc2|]. now apply es_of_lookup_perm.
+Qed.
